@@ -139,7 +139,16 @@ def srvStep (d : SrvDrv) (toks : List String) : Option (SrvDrv × String) :=
   match toks with
   | "cfg" :: rest => some (⟨parseCfg rest, Srv.init⟩, "ok")
   | ["lis", stream, fam, unspec, vetoed] =>
-    some ({ d with cfg := { d.cfg with lis := d.cfg.lis ++ [⟨b01 stream, (natOf fam), b01 unspec, parseIPs vetoed⟩] } }, "ok")
+    some ({ d with cfg := { d.cfg with lis := d.cfg.lis ++ [⟨b01 stream, (natOf fam), b01 unspec, parseIPs vetoed, []⟩] } }, "ok")
+  | ["lis", stream, fam, unspec, vetoed, vfor] =>
+    -- vfor: client>peer pairs the permission handler refuses for that client only
+    let pairs := if vfor == "-" then [] else (vfor.splitOn ",").filterMap (fun x =>
+      match x.splitOn ">" with
+      | [a, b] => match parseIPs a, parseIPs b with
+        | [ia], [ib] => some (ia, ib)
+        | _, _ => none
+      | _ => none)
+    some ({ d with cfg := { d.cfg with lis := d.cfg.lis ++ [⟨b01 stream, (natOf fam), b01 unspec, parseIPs vetoed, pairs⟩] } }, "ok")
   | ["state"] => some (d, showState d.st)
   -- H9: teardown during a slow lifecycle callback; the model's answer is justified by C18.addperm_vs_close
   | "slowcb" :: _ => some (d, "ok")
